@@ -51,7 +51,7 @@ func (m *machine) eval(e wgen.Expr) Value {
 		if wgen.IsRef(x) {
 			r := m.ref(x)
 			m.noteLoad(r)
-			if r.oob && m.cfg.ZeroOOBReads {
+			if _, zero := m.oobPolicy(r.root); r.oob && zero {
 				return Zero(x.T, 0)
 			}
 			return r.load()
